@@ -292,12 +292,17 @@ class Model():
                     # There are no other assets on this side,
                     # so we should remove the entire association.
                     self.remove_association(association)
-                    return
+                    break
                 field.remove(asset)
 
         if not found:
             raise LookupError(f'Asset "{asset.name}"({asset.id}) is not '
                 'part of the association provided.')
+
+        # The asset is no longer part of the association, so it should not
+        # list the association anymore either.
+        asset.associations = [assoc for assoc in asset.associations
+            if assoc is not association]
 
     def _validate_association(self, association: SchemaGeneratedClass) -> None:
         """Raise error if association is invalid or already part of the Model.
